@@ -261,7 +261,49 @@ class Equiv(Suite):
             keep = [p for p in pairs if p[0] in base[:10] or p[1] in base[:10]]
             rest = [p for p in pairs if not (p[0] in base[:10] or p[1] in base[:10])]
             pairs = keep + rng.sample(rest, max(0, cap - len(keep)))
-        return [{"a": a, "b": b} for a, b in pairs]
+        cases = [{"a": a, "b": b} for a, b in pairs]
+        # schemes of very different magnitudes (one of them scaled by 2^-30 or 2^20) and near-multiples (one entry off by a relative
+        # 2^-20): exactly representable, so that "proportional" is decided exactly by the code's float quotients - and wrongly by any
+        # tolerance.  The pair is handed to Coq on a common exact scale (equivalence and nickname do not depend on a common factor).
+        presets = [s.penalty_vectors for s in PRESETS()]
+        for _ in range(300 if tier == "quick" else 3000):
+            s1 = rng.choice(presets) if rng.random() < 0.5 else rng.choice(base)
+            kind = rng.choice(["tiny_same", "tiny_other", "near", "near", "huge_other"])
+            if kind == "near":
+                k = rng.choice([1.0, 2.0, 0.5, 3.0])
+                s2 = [[x * k for x in s1[0]], [x * k for x in s1[1]]]
+                v, i = rng.choice([(0, 1), (0, 2), (0, 4), (0, 5), (1, 5), (1, 0), (1, 3)])
+                if s2[v][i] == 0:
+                    continue
+                s2[v][i] = s2[v][i] * (1 + 2.0 ** -20)
+                if (v, i) == (1, 0):
+                    s2[1][1] = s2[1][0]
+                if (v, i) == (1, 3):
+                    s2[1][4] = s2[1][3]
+                if not s2[0][3] <= s2[0][4]:
+                    continue
+                a, b = (s1, s2) if rng.random() < 0.5 else (s2, s1)
+            else:
+                t = 2.0 ** 20 if kind == "huge_other" else 2.0 ** -30
+                if kind == "tiny_same":
+                    s2 = s1
+                else:      # same zero pattern, not proportional
+                    s2 = [list(s1[0]), list(s1[1])]
+                    nz = [(v, i) for v in (0, 1) for i in range(6) if s1[v][i] != 0 and (v, i) not in ((1, 1), (1, 4), (0, 3))]
+                    if len(nz) < 2:
+                        continue
+                    v, i = rng.choice(nz)
+                    s2[v][i] = s2[v][i] * 2
+                    if (v, i) == (1, 0):
+                        s2[1][1] = s2[1][0]
+                    if (v, i) == (1, 3):
+                        s2[1][4] = s2[1][3]
+                    if not s2[0][3] <= s2[0][4]:
+                        continue
+                tiny = [[x * t for x in s2[0]], [x * t for x in s2[1]]]
+                a, b = (tiny, s1) if rng.random() < 0.5 else (s1, tiny)
+            cases.append({"a": a, "b": b, "exact": True, "kind": kind})
+        return cases
 
     def run(self, case):
         a = ScoringScheme(case["a"])
@@ -271,6 +313,15 @@ class Equiv(Suite):
                 "nick": nk if nk in ("UKSP", "GPDP", "IGKS", "EKS") else "NoNick"}
 
     def term(self, case, out):
+        if case.get("exact"):
+            from fractions import Fraction
+            from math import lcm
+            fr = [Fraction(x) for s in (case["a"], case["b"]) for v in s for x in v]
+            den = lcm(*[f.denominator for f in fr])
+            ints = [int(f * den) for f in fr]
+            ta = "(mkS " + " ".join(z(v) for v in ints[:12]) + ")"
+            tb = "(mkS " + " ".join(z(v) for v in ints[12:]) + ")"
+            return f"({ta}, {tb}, ({cbool(out['e6'])}, {cbool(out['e3'])}, {out['nick']}))"
         return f"({scheme_term(case['a'])}, {scheme_term(case['b'])}, ({cbool(out['e6'])}, {cbool(out['e3'])}, {out['nick']}))"
 
     def nontrivial(self, case, out):
@@ -282,6 +333,8 @@ class Equiv(Suite):
     def stats(self, case, out, acc):
         k = f"e6={out['e6']},e3={out['e3']},{out['nick']}"
         acc[k] = acc.get(k, 0) + 1
+        if case.get("exact"):
+            acc["magnitudes/" + case["kind"]] = acc.get("magnitudes/" + case["kind"], 0) + 1
 
 
 class Presets(Suite):
